@@ -135,9 +135,14 @@ void hash_temporal(vf::H128 &h, bool is_gauge, bool is_double, sdkm::TemporalMet
 }
 
 struct ReaderCfg { int n; bool delta[3]; };
-std::vector<ReaderCfg> g_readers;
-int g_depth = 5;
-bool g_ties = false;
+// A run is split into parts with different bounds.
+//   rich:  script operations step/decrease on every callback and appear/disappear on cb0 and cb1
+//          (otherwise: step on every callback, decrease and appear/disappear on cb0 only)
+//   reps:  one reader configuration per multiset of temporalities, otherwise all 14 ordered ones
+//   both_starts: histories starting with no callback registered as well as with cb0 registered
+struct Part { int depth; bool rich; bool reps; bool both_starts; };
+std::vector<Part> g_parts;
+std::vector<ReaderCfg> g_readers_all, g_readers_rep;
 
 struct Got {
   bool present = false;
@@ -228,10 +233,14 @@ void fnA(api::ObserverResult res, void *st) { CbState *s = static_cast<CbState *
 void fnB(api::ObserverResult res, void *st) { CbState *s = static_cast<CbState *>(st); s->w->invoke(s->slotB, res); }
 
 void run_observable(vf::Ctx &c) {
+  const int part = c.pick("part", (int)g_parts.size());
+  const Part &P = g_parts[part];
+  const int g_depth = P.depth;
   const OKind kind = (OKind)c.pick("kind", 3);
   const bool is_double = c.pick("type", 2) == 1;
+  const std::vector<ReaderCfg> &g_readers = P.reps ? g_readers_rep : g_readers_all;
   const int rcfg = c.pick("readers", (int)g_readers.size());
-  const bool prereg = c.thorough() ? c.pick("start", 2) == 0 : true;
+  const bool prereg = P.both_starts ? c.pick("start", 2) == 0 : true;
   const ReaderCfg &RC = g_readers[rcfg];
   const int R = RC.n;
   const bool is_gauge = kind == O_GAUGE;
@@ -279,7 +288,7 @@ void run_observable(vf::Ctx &c) {
 
   auto real_state = [&](vf::H128 &h) {
     h.add(0xc17);
-    h.add((uint64_t)kind); h.add(is_double); h.add((uint64_t)rcfg); h.add(alive);
+    h.add((uint64_t)part); h.add((uint64_t)kind); h.add(is_double); h.add((uint64_t)rcfg); h.add(alive);
     // registered callbacks in invocation order
     for (auto &rec : sdk_meter->observable_registry_->callbacks_) {
       int slot = -1;
@@ -315,8 +324,8 @@ void run_observable(vf::Ctx &c) {
       for (int j = 0; j < NSLOT; ++j) {
         if (!registered[j]) continue;
         ops[n++] = {OP_STEP, j};
-        if (!monotone && (j == 0 || c.thorough())) ops[n++] = {OP_DEC, j};
-        if (j == 0 || (j == 1 && c.thorough())) ops[n++] = {OP_TOGGLE, j};
+        if (!monotone && (j == 0 || P.rich)) ops[n++] = {OP_DEC, j};
+        if (j == 0 || (j == 1 && P.rich)) ops[n++] = {OP_TOGGLE, j};
       }
     }
     for (int r = 0; r < R; ++r) ops[n++] = {OP_COLLECT, r};
@@ -431,7 +440,11 @@ void run_observable(vf::Ctx &c) {
 // ------------------------------------------------------------------------------------------------
 #if OPENTELEMETRY_ABI_VERSION_NO >= 2
 void run_syncgauge(vf::Ctx &c) {
+  const int part = c.pick("part", (int)g_parts.size());
+  const Part &P = g_parts[part];
+  const int g_depth = P.depth;
   const bool is_double = c.pick("type", 2) == 1;
+  const std::vector<ReaderCfg> &g_readers = P.reps ? g_readers_rep : g_readers_all;
   const int rcfg = c.pick("readers", (int)g_readers.size());
   const ReaderCfg &RC = g_readers[rcfg];
   const int R = RC.n;
@@ -460,7 +473,7 @@ void run_syncgauge(vf::Ctx &c) {
   std::string hist, outlog;
   auto real_state = [&](vf::H128 &h) {
     h.add(0xc171);
-    h.add(is_double); h.add((uint64_t)rcfg);
+    h.add((uint64_t)part); h.add(is_double); h.add((uint64_t)rcfg);
     hash_map(h, true, is_double, storage->attributes_hashmap_.get());
     hash_temporal(h, true, is_double, storage->temporal_metric_storage_, collectors);
     h.add((uint64_t)vf::clock_virtual_ns());
@@ -524,24 +537,27 @@ void run_syncgauge(vf::Ctx &c) {
 #endif
 
 void setup(vf::Options &o) {
-  o.split_depth = 5;
+  o.split_depth = 6;
   o.deadline_s = o.thorough ? 900 : 150;
-  o.table_bits = o.thorough ? 25 : 23;
+  o.table_bits = o.thorough ? 26 : 23;
   opentelemetry::sdk::common::internal_log::GlobalLogHandler::SetLogLevel(opentelemetry::sdk::common::internal_log::LogLevel::None);
   const bool D = true, C = false;
-  if (o.thorough) {
-    for (int n = 1; n <= 3; ++n)
-      for (int m = 0; m < (1 << n); ++m) {
-        ReaderCfg rc{n, {false, false, false}};
-        for (int i = 0; i < n; ++i) rc.delta[i] = !((m >> i) & 1);
-        g_readers.push_back(rc);
-      }
-  } else {
-    g_readers = {{1, {D}}, {1, {C}}, {2, {D, D}}, {2, {D, C}}, {2, {C, C}}, {3, {D, D, C}}, {3, {D, C, C}}, {3, {C, D, D}}};
-  }
-  g_depth = o.thorough ? 7 : 5;
+  for (int n = 1; n <= 3; ++n)
+    for (int m = 0; m < (1 << n); ++m) {
+      ReaderCfg rc{n, {false, false, false}};
+      for (int i = 0; i < n; ++i) rc.delta[i] = !((m >> i) & 1);
+      g_readers_all.push_back(rc);
+    }
+  g_readers_rep = {{1, {D}}, {1, {C}}, {2, {D, D}}, {2, {D, C}}, {2, {C, C}}, {3, {D, D, C}}, {3, {D, C, C}}, {3, {C, D, D}}};
+#if OPENTELEMETRY_ABI_VERSION_NO >= 2
+  if (o.thorough) g_parts = {{7, false, false, false}};
+  else g_parts = {{5, false, true, false}};
+#else
+  if (o.thorough) g_parts = {{5, true, false, true}, {6, true, true, false}, {7, false, true, false}};
+  else g_parts = {{5, false, true, false}};
+#endif
   std::string d = o.get("depth");
-  if (!d.empty()) g_depth = atoi(d.c_str());
+  if (!d.empty()) g_parts = {{atoi(d.c_str()), o.get("rich") == "1", o.get("allreaders") != "1", o.get("bothstarts") == "1"}};
 }
 
 void run(vf::Ctx &c) {
